@@ -4,13 +4,6 @@ import GoitProofs.Lemmas.Bytes
 
 namespace TreeBuild
 
-/-- the nodes `writeTreeObject` produces, mirrored from `write` (same grouping, same ids) -/
-def build (H : HashFn) : Nat → List Entry → List Node
-  | 0, _ => []
-  | f + 1, es => (group [] [] es).map fun
-      | .leaf n i => Node.mk n i []
-      | .dir d sub => Node.mk d (write H f sub).id (build H f sub)
-
 /-- every `/`-separated component of the path is non-empty (no leading, trailing or double slash) -/
 def PathOK : Bytes → Prop := fun p => ∀ c ∈ Bytes.split1 47 p, c ≠ []
 
